@@ -42,20 +42,21 @@ Definition sep_text (line : string) : string :=
 (* push a string onto a reversed accumulator *)
 Definition push_rev (t acc_rev : string) : string := str_rev_acc t acc_rev.
 
+(* end of input: the text held back goes to the last document *)
+Definition flush (acc_rev : string) (m : smode) : string :=
+  match m with
+  | MDoc => str_rev acc_rev
+  | MNl k => str_rev (push_rev (pending k) acc_rev)
+  (* the line never ends: not a separator, the text belongs to the current document *)
+  | MSep line_rev => str_rev (push_rev (pending 3) acc_rev) ++ str_rev line_rev
+  end.
+
 (* One pass over the input, one byte per step.
    result: documents and the separators between them, both in order. *)
 Fixpoint split_go (s : string) (acc_rev : string) (m : smode) (docs_rev seps_rev : list string)
   : res (list string * list string) :=
   match s with
-  | EmptyString =>
-      let last :=
-        match m with
-        | MDoc => str_rev acc_rev
-        | MNl k => str_rev (push_rev (pending k) acc_rev)
-        (* the line never ends: not a separator, the text belongs to the current document *)
-        | MSep line_rev => str_rev (push_rev (pending 3) acc_rev) ++ str_rev line_rev
-        end in
-      Ok (rev (last :: docs_rev), rev seps_rev)
+  | EmptyString => Ok (rev (flush acc_rev m :: docs_rev), rev seps_rev)
   | String c s' =>
       match m with
       | MDoc =>
@@ -133,17 +134,43 @@ Fixpoint interleave (ds seps : list string) : string :=
   | [], _ => EmptyString
   end.
 
-(* the text contains "\n---" nowhere: no separator can start inside it *)
-Fixpoint no_sep_start (s : string) : bool :=
-  match s with
-  | EmptyString => true
-  | String c s' =>
-      (if Ascii.eqb c nl then
-         match s' with
-         | String d1 (String d2 (String d3 _)) => negb (Ascii.eqb d1 dash && Ascii.eqb d2 dash && Ascii.eqb d3 dash)
-         | _ => true
-         end
-       else true) && no_sep_start s'
+(* the text consumed so far that is not yet part of a finished document *)
+Definition consumed (acc_rev : string) (m : smode) : string :=
+  str_rev acc_rev ++
+  match m with
+  | MDoc => EmptyString
+  | MNl k => pending k
+  | MSep line_rev => pending 3 ++ str_rev line_rev
   end.
+
+(* the mode the scanner is in after reading a text in which no separator candidate ("\n---" up to the
+   end of its line) completes; None as soon as one does *)
+Fixpoint mode_after (s : string) (m : smode) : option smode :=
+  match s with
+  | EmptyString => Some m
+  | String c s' =>
+      match m with
+      | MDoc => if Ascii.eqb c nl then mode_after s' (MNl 0) else mode_after s' MDoc
+      | MNl k =>
+          if Ascii.eqb c dash then
+            match k with
+            | S (S _) => mode_after s' (MSep EmptyString)
+            | _ => mode_after s' (MNl (S k))
+            end
+          else if Ascii.eqb c nl then mode_after s' (MNl 0)
+          else mode_after s' MDoc
+      | MSep line_rev => if Ascii.eqb c nl then None else mode_after s' (MSep (String c line_rev))
+      end
+  end.
+
+(* a document text: no separator candidate completes inside it and it does not end in the middle of one *)
+Definition plain_doc (d : string) : bool :=
+  match mode_after d MDoc with
+  | Some MDoc | Some (MNl _) => true
+  | _ => false
+  end.
+
+Definition mode_ok (m : smode) : Prop :=
+  match m with MNl k => k <= 2 | _ => True end.
 
 Definition doc_sep : string := String nl (String dash (String dash (String dash (String nl "")))).
